@@ -130,6 +130,52 @@ CHECKS = {
         "exhaustive": {"quick": False, "thorough": False},
         "assumptions": [REFCPU, "an unbounded 'always terminates' is restated as bounded progress in emulated time"],
     },
+    "C10": {
+        "title": "every bus address decodes to the documented region",
+        "level": "exploration",
+        "rule": "cases = bus writes (address, value) inside random histories (bank registers, I/O, RAM) on MBC1+RAM, MBC3+RAM and ROM-only cores built by the real loader; "
+                "after every write all 65536 addresses are read back and compared with a reference bus (shadow RAMs, I/O register model with defined-bit masks, learnt constants "
+                "for unmapped cells, ROM/RAM windows identified from per-bank index bytes), and the fetch view is compared with the data view over ROM/WRAM/HRAM. "
+                "distinct_nontrivial = distinct (cartridge, written address) pairs",
+        "phases": [
+            {"variant": "interp-dbg", "monitor": "c10", "shards": 16, "tiers": ("quick",)},
+            {"variant": "interp-rel", "monitor": "c10", "shards": 16, "tiers": ("thorough",)},
+        ],
+        "floors": {"quick": {"evaluations": 15_000, "bytes-read-back-and-compared": 400_000_000}, "thorough": {"evaluations": 390_000}},
+        "exhaustive": {"quick": False, "thorough": True},
+        "assumptions": ["no emulated time passes inside this monitor (reads are pure), so a full read-back is a faithful observation",
+                        "thorough: every one of the 65536 addresses is a write target (two values each) on each of the three cartridges; the read-back probe is always the whole address space",
+                        "the serial registers' read side and P1 bits 6-7 / STAT bit 7 are excluded, as the property states"],
+    },
+    "C11": {
+        "title": "no guest-controlled bus access can crash the emulator",
+        "level": "fault_enumeration",
+        "rule": "cases = single bus accesses (read, write, word read, word write) on cores loaded through the real loader from generated files for every supported "
+                "(type, ROM-size code, RAM-size code) combination, under every value written to each banking-register area and random register histories; the oracle is the "
+                "survival of the worker process in a build with overflow checks (a death is attributed to the access announced in shared memory). "
+                "distinct_nontrivial = distinct configurations exercised",
+        "phases": [
+            {"variant": "interp-dbg", "monitor": "c11", "shards": 16},
+        ],
+        "floors": {"quick": {"evaluations": 100_000_000, "configurations": 120}, "thorough": {"evaluations": 1_000_000_000, "configurations": 504}},
+        "exhaustive": {"quick": False, "thorough": False},
+        "assumptions": ["quick: 3 ROM sizes per type; thorough: all 504 combinations, all 256 values per register area, full address sweeps after random histories"],
+    },
+    "C12": {
+        "title": "MBC1/MBC3 bank selection follows the controller's register protocol",
+        "level": "exploration",
+        "rule": "cases = transitions (register state, area, value) of MBC1 (32x4x2 states x 3 areas x values), MBC3 (128 ROM-register states x 3 areas x values) and "
+                "ROM-only carts, for ROM/RAM sizes from the header tables, plus random long histories; after each write the banks visible at 0x4000, 0x0000 and 0xA000 are read "
+                "from per-bank index bytes and compared with a reference controller (masking, 0->1, upper bits, mode, reduction to the real size). "
+                "distinct_nontrivial = distinct (configuration, register state) pairs reached",
+        "phases": [
+            {"variant": "interp-dbg", "monitor": "c12", "shards": 16},
+        ],
+        "floors": {"quick": {"evaluations": 5_000_000, "configurations": 60}, "thorough": {"evaluations": 60_000_000, "configurations": 504}},
+        "exhaustive": {"quick": False, "thorough": True},
+        "assumptions": ["accept-set: MBC1 mode 1 with more than 32 banks may or may not apply the upper bits (counted)",
+                        "MBC3 RAM-bank writes >= 4 (RTC select / unused) leave the RAM window unspecified until a value < 4 is written"],
+    },
 }
 
 # properties not claimed (with reason); everything else is in CHECKS
